@@ -96,12 +96,14 @@ class Server:
                 return
             self._absorb(msg)
 
-    def initialize(self):
+    def initialize(self, folders=None):
+        """folders: sub-directories of the root that are workspace folders of their own (each with its oal.toml)"""
         root_uri = "file://" + self.root
+        wf = [{"uri": root_uri, "name": "w"}] if not folders else [{"uri": root_uri + "/" + d, "name": d} for d in folders]
         r = self.request("initialize", {
             "processId": None, "rootUri": root_uri,
             "capabilities": {"general": {"positionEncodings": ["utf-16"]}},
-            "workspaceFolders": [{"uri": root_uri, "name": "w"}]})
+            "workspaceFolders": wf})
         self.notify("initialized", {})
         return r
 
